@@ -151,7 +151,7 @@ Qed.
 Lemma unmarshal_v1_no_panic dec unzip hd h b p : lenN h = hs1 -> unmarshal_v1 dec unzip hd h b p <> Panic.
 Proof.
   intros Hh. unfold unmarshal_v1. rewrite Hh, N.ltb_irrefl.
-  destruct (negb _); [discriminate|]. destruct (0 <? lenN b); [|discriminate].
+  destruct (negb _); [discriminate|]. destruct (_ || _); [|discriminate].
   apply unmarshal_body_no_panic.
 Qed.
 
@@ -163,10 +163,10 @@ Proof.
   - destruct (N.ltb_spec (lenN b) (byte_at 5 h * 4)) as [Hl|Hl]; [discriminate|].
     destruct (read_refs_some (N.to_nat (byte_at 5 h)) b) as [l E]; [lia|]. rewrite E.
     destruct (N.ltb_spec (lenN b) (byte_at 5 h * 4)) as [X|_]; [lia|].
-    destruct (0 <? lenN (dropN (byte_at 5 h * 4) b)); [|discriminate].
+    destruct (_ || _); [|discriminate].
     apply unmarshal_body_no_panic.
   - destruct (N.ltb_spec (lenN b) 0) as [X|_]; [lia|].
-    destruct (0 <? lenN (dropN 0 b)); [|discriminate]. apply unmarshal_body_no_panic.
+    destruct (_ || _); [|discriminate]. apply unmarshal_body_no_panic.
 Qed.
 
 (* ---------------------------------------------------------------------------------- *)
@@ -539,26 +539,45 @@ Proof.
   - eexists. apply mismatch_compressed_encrypted; assumption.
 Qed.
 
+(* a mismatch always involves one of the two marshalling bits *)
+Lemma land_marshal_l f : N.land f fEncrypted <> 0 -> N.land f fMarshal <> 0.
+Proof.
+  intros H E. apply H. change fEncrypted with 2. change fMarshal with 3 in E.
+  replace 2 with (N.land 3 2) by reflexivity. rewrite N.land_assoc, E. reflexivity.
+Qed.
+Lemma land_marshal_r f : N.land f fCompressed <> 0 -> N.land f fMarshal <> 0.
+Proof.
+  intros H E. apply H. change fCompressed with 1. change fMarshal with 3 in E.
+  replace 1 with (N.land 3 1) by reflexivity. rewrite N.land_assoc, E. reflexivity.
+Qed.
+Lemma flags_mismatch_marshal dec unzip hd f b : flags_mismatch dec unzip hd f b -> N.land f fMarshal <> 0.
+Proof.
+  intros [[H _]|[(_ & H & _)|(H & _)]];
+    [apply land_marshal_l|apply land_marshal_r|apply land_marshal_l]; assumption.
+Qed.
+
 Lemma flag_mismatch_v1 dec unzip hd s p0 h b :
-  r_out (read_head_body_v1 s) = Ok (h, b) -> 0 < lenN b ->
+  r_out (read_head_body_v1 s) = Ok (h, b) ->
   flags_mismatch dec unzip hd (byte_at 3 h) b ->
   is_err (r_out (read_packet_v1 dec unzip hd s p0)).
 Proof.
-  intros H Hb M. rewrite (read_packet_v1_out _ _ _ _ _ _ _ H).
+  intros H M. rewrite (read_packet_v1_out _ _ _ _ _ _ _ H).
   pose proof (head_body_v1_flat s) as F. cbv zeta in F. rewrite H in F.
   pose proof (f_read_hb_bounded hs1 max1 get16 hs1_le_max1 (concat s)) as B.
   unfold f_hb_v1 in F. rewrite <- F in B. destruct B as (_ & _ & _ & B).
   destruct (B h b eq_refl) as (Lh & _).
   unfold unmarshal_v1. rewrite Lh, N.ltb_irrefl.
-  destruct (negb _); [eexists; reflexivity|].
-  destruct (N.ltb_spec 0 (lenN b)) as [_|X]; [|lia].
+  destruct (negb _); [eexists; reflexivity|]. cbn [p_flag].
+  destruct (N.eqb_spec (N.land (byte_at 3 h) fMarshal) 0) as [X|_];
+    [exfalso; revert X; eapply flags_mismatch_marshal; exact M|].
+  rewrite orb_true_r.
   apply unmarshal_body_mismatch. exact M.
 Qed.
 
 (* V2: the body follows the references *)
 Lemma flag_mismatch_v2 dec unzip hd s p0 h b :
   r_out (read_head_body_v2 s) = Ok (h, b) ->
-  byte_at 5 h * 4 < lenN b ->
+  byte_at 5 h * 4 <= lenN b ->
   flags_mismatch dec unzip hd (byte_at 4 h) (dropN (byte_at 5 h * 4) b) ->
   is_err (r_out (read_packet_v2 dec unzip hd s p0)).
 Proof.
@@ -573,13 +592,17 @@ Proof.
   - destruct (N.ltb_spec (lenN b) (byte_at 5 h * 4)) as [X|_]; [lia|].
     destruct (read_refs_some (N.to_nat (byte_at 5 h)) b) as [l E]; [lia|]. rewrite E.
     destruct (N.ltb_spec (lenN b) (byte_at 5 h * 4)) as [X|_]; [lia|].
-    rewrite lenN_dropN.
-    destruct (N.ltb_spec 0 (lenN b - byte_at 5 h * 4)) as [_|X]; [|lia].
+    unfold set_refers. cbn [p_flag].
+    destruct (N.eqb_spec (N.land (byte_at 4 h) fMarshal) 0) as [X|_];
+      [exfalso; revert X; eapply flags_mismatch_marshal; exact M|].
+    rewrite orb_true_r.
     apply unmarshal_body_mismatch. exact M.
   - assert (E0 : byte_at 5 h = 0) by lia. rewrite E0 in *. cbn [N.mul] in *.
     destruct (N.ltb_spec (lenN b) 0) as [X|_]; [lia|].
-    rewrite dropN_0 in *.
-    destruct (N.ltb_spec 0 (lenN b)) as [_|X]; [|lia].
+    rewrite dropN_0 in *. cbn [p_flag].
+    destruct (N.eqb_spec (N.land (byte_at 4 h) fMarshal) 0) as [X|_];
+      [exfalso; revert X; eapply flags_mismatch_marshal; exact M|].
+    rewrite orb_true_r.
     apply unmarshal_body_mismatch. exact M.
 Qed.
 
